@@ -625,3 +625,54 @@ def tool_symlink(ctx):
     if n < 1:
         raise AnalysisError('anchor-vanished: add_symlink call of pycdlib-genisoimage with rr_path and udf_target')
     return obs
+
+
+@rule('SA-SIB.tool_views')
+@props('C20')
+def tool_views(ctx):
+    """An operation on one view of the image is governed by that view's own switches.
+
+    pycdlib-genisoimage keeps, per source file, a path and a hide flag for each view (`joliet_path` / `hide_joliet`,
+    `udf_path` / `hide_udf`, ...).  A library call that acts on a single view - its only view keyword is `udf_new_path=`,
+    `joliet_path=`, ... (`*_old_path` names the source of a link, not a view) - may be guarded by tests on that view's
+    variables and on general ones, not by another view's: `if udf_path is not None and not hide_joliet:` makes the UDF
+    entry of a file depend on whether it is hidden from Joliet."""
+    from .. import expand as ex
+    VIEWS = ('joliet', 'udf')
+    obs = []
+    n = 0
+    for fi in ctx.m.functions.values():
+        if not ctx.m.modules[fi.module].is_tool:
+            continue
+        for c in ctx.own_nodes(fi):
+            if not (isinstance(c, ast.Call) and isinstance(c.func, ast.Attribute) and c.keywords):
+                continue
+            kv = set()
+            for k in c.keywords:
+                if k.arg is None or k.arg.endswith('_old_path'):
+                    continue
+                for v in VIEWS:
+                    if k.arg.startswith(v + '_') or ('_' + v + '_') in k.arg:
+                        kv.add(v)
+            other_kw = [k.arg for k in c.keywords if k.arg and not k.arg.endswith('_old_path') and not any(k.arg.startswith(v + '_') or ('_' + v + '_') in k.arg for v in VIEWS)]
+            if len(kv) != 1 or any(a.startswith('iso_') or a.startswith('rr_') for a in other_kw):
+                continue          # acts on several views at once (add_file(iso, rr, joliet, udf)): governed by all of them
+            view = next(iter(kv))
+            st = ctx.enclosing_stmt(fi, c)
+            foreign = []
+            for test, pol, _at in ex.conditions(ctx, fi, st, True):
+                for t, p in ex.conjuncts(test, pol):
+                    for nm in ast.walk(t):
+                        ident = nm.id if isinstance(nm, ast.Name) else nm.attr if isinstance(nm, ast.Attribute) else None
+                        if ident:
+                            for w in VIEWS:
+                                if w != view and w in ident.lower():
+                                    foreign.append((norm(t), ident))
+            n += 1
+            key = '%s|%s(%s)' % (fi.qual, norm(c.func), ', '.join(k.arg for k in c.keywords if k.arg))
+            obs.append(Ob('SA-SIB.tool_views', key, not foreign, ctx.loc(fi, c),
+                          '' if not foreign else 'this call acts on the %s view only, but it is guarded by `%s`, which tests `%s` - a switch of another view: whether the entry '
+                          'appears in the %s view then depends on how the file is treated in the other one' % (view, foreign[0][0], foreign[0][1], view)))
+    if n < 4:
+        raise AnalysisError('anchor-vanished: single-view library calls in the tools (%d)' % n)
+    return obs
